@@ -502,6 +502,49 @@ def latin1(s):
     return all(ord(c) < 256 for c in s)
 
 
+SIZE_LIMIT = 200000
+
+
+def huge_declared_size(text, fmt):
+    """the readers allocate (Graph, DirectedGraph) or loop over (matrix) the DECLARED number of vertices: a 9-byte file
+    '59225725\n' needs gigabytes and minutes.  That is a resource question, outside the property; such texts are not run."""
+    def num(tok):
+        try:
+            return int(tok)
+        except ValueError:
+            return None
+    try:
+        if fmt == 'kthlist':
+            for ln in text.split('\n'):
+                if ln[:1] != 'c' and ':' not in ln:
+                    v = num(ln.strip())
+                    if v is not None and v > SIZE_LIMIT:
+                        return True
+        elif fmt == 'dimacs':
+            for ln in text.split('\n'):
+                t = ln.split()
+                if t and t[0][0] == 'p' and len(t) >= 3:
+                    v = num(t[2])
+                    if v is not None and v > SIZE_LIMIT:
+                        return True
+        else:
+            toks = []
+            for ln in text.split('\n'):
+                t = ln.split()
+                if t and t[0][0] != '#':
+                    toks += t
+                if len(toks) >= 2:
+                    break
+            v = [num(x) for x in toks[:2]]
+            if any(x is not None and x > SIZE_LIMIT for x in v):
+                return True
+            if len(v) == 2 and None not in v and v[0] * v[1] > 10 * SIZE_LIMIT:
+                return True
+    except Exception:  # noqa
+        return False
+    return False
+
+
 # --------------------------------------------------------------------------
 # classification of a reader case
 # --------------------------------------------------------------------------
@@ -738,6 +781,9 @@ def run(ctx):
                        ('bipartite', 'matrix', '1 2\r\n1 0\r\n\r\n'), ('simple', 'kthlist', '2\r2 : 1 0\r'), ('simple', 'dimacs', 'p edge 2 1\re 1 2\r'),
                        ('bipartite', 'kthlist', '3\r\n1 : 2 3 0\r\n\r\n')]:
         cases.append(('fixed-text', ty, fmt, t, None))
+    nbefore = len(cases)
+    cases = [c for c in cases if not huge_declared_size(c[3], c[2])]
+    ctx.tally('texts not run', 'huge declared size: %d' % (nbefore - len(cases)))
     reqs = [cmd('gio_read', has_dot, Sym(ty), Sym(fmt), t) for (_s, ty, fmt, t, _e) in cases]
     reps = ctx.model.batch(reqs)
     reps_af = ctx.model.batch([cmd('gio_read_as_found', has_dot, Sym(ty), Sym(fmt), t) for (_s, ty, fmt, t, _e) in cases])
